@@ -2,32 +2,81 @@
 """
 C11 runtime character tables, re-extracted on every run -> lean/Ptk/Gen/C11.lean:
 
-  rawWidthRanges   code point ranges with utils.get_cwidth(c) = 0 / = 2  (everything else 1);
-                   scanned over the sub-ranges of the BMP the C11 generators draw their
-                   alphabets from (SCAN below) -- outside SCAN the model assumes width 1
+  zeroWidthRanges / wideRanges / otherWidthRanges
+                   inclusive code point ranges with utils.get_cwidth(chr(cp)) = 0 / = 2 / anything
+                   else than 0, 1, 2 -- for ALL code points 0 .. 0x10FFFF (lone surrogates are
+                   measured too); everything not listed is 1.  The scan (~1.1 M calls) goes through
+                   the CURRENT tree's get_cwidth and is cached in /verif/.work keyed on the hash of
+                   that tree's utils.py and of the wcwidth package's sources.
   displayMappings  layout/screen.py Char.display_mappings  (what a cell shows for a control
                    character, e.g. TAB -> "^I"), complete
+  probes / literals  see _probe_measuring, _probe_mouse_region, _source_constants
 """
 from __future__ import annotations
 
+import hashlib
+import json
+import os
+
 import gen_tables as G
 
+# round-1 sub-ranges (kept under the old name `scanned` for the cross-model agreement layer, which
+# quantifies over them); the tables are complete now: `scannedAll`
 SCAN = [(0, 0x3100), (0x4E00, 0x4F00), (0xFF00, 0x10000)]
+ALL = [(0, 0x110000)]
 
 
-def _ranges(pred):
+def _width_ranges():
+    """[(lo, hi, w)] inclusive, for every maximal run of code points whose get_cwidth is w != 1"""
+    import prompt_toolkit.utils as U
+    import wcwidth
+
+    h = hashlib.sha256()
+    h.update(open(U.__file__, "rb").read())
+    pkg = os.path.dirname(wcwidth.__file__)
+    for fn in sorted(os.listdir(pkg)):
+        if fn.endswith(".py"):
+            h.update(fn.encode())
+            h.update(open(os.path.join(pkg, fn), "rb").read())
+    work = os.path.join(G.ROOT, ".work")
+    os.makedirs(work, exist_ok=True)
+    cache = os.path.join(work, f"c11_cwidth_{h.hexdigest()[:20]}.json")
+    if os.path.exists(cache):
+        try:
+            return [tuple(x) for x in json.load(open(cache))]
+        except Exception:
+            pass
+    # measure through the tree's own cache class when it has one (so that the 1.1 M entries do not
+    # stay in the process-wide cache), else through get_cwidth
+    cls = getattr(U, "_CharSizesCache", None)
+    own = cls() if cls is not None else None
     out = []
-    for lo, hi in SCAN:
-        start = None
-        for cp in range(lo, hi):
-            ok = not (0xD800 <= cp <= 0xDFFF) and pred(chr(cp))
-            if ok and start is None:
-                start = cp
-            if not ok and start is not None:
-                out.append((start, cp - 1))
-                start = None
-        if start is not None:
-            out.append((start, hi - 1))
+    start = prev = None
+    cur = 1
+    for cp in range(0x110000):
+        ch = chr(cp)
+        if own is not None:
+            w = own[ch]
+            if not (cp & 0xFFF):
+                own.clear()
+        else:
+            w = U.get_cwidth(ch)
+        if w != cur:
+            if start is not None and cur != 1:
+                out.append((start, prev, cur))
+            start, cur = cp, w
+        prev = cp
+    if start is not None and cur != 1:
+        out.append((start, prev, cur))
+    if own is None:
+        try:
+            U._CHAR_SIZES_CACHE.clear()
+        except Exception:
+            pass
+    tmp = cache + ".tmp%d" % os.getpid()
+    with open(tmp, "w") as fh:
+        json.dump(out, fh)
+    os.replace(tmp, cache)
     return out
 
 
@@ -111,9 +160,10 @@ def generate() -> None:
         from prompt_toolkit.layout.screen import Char
         from prompt_toolkit.utils import get_cwidth
 
-        zero = _ranges(lambda c: get_cwidth(c) == 0)
-        two = _ranges(lambda c: get_cwidth(c) == 2)
-        other = _ranges(lambda c: get_cwidth(c) not in (0, 1, 2))
+        wr = _width_ranges()
+        zero = [(a, b) for a, b, w in wr if w == 0]
+        two = [(a, b) for a, b, w in wr if w == 2]
+        other = [(a, b) for a, b, w in wr if w not in (0, 2)]
         dm = sorted((ord(k), [ord(x) for x in v]) for k, v in Char.display_mappings.items() if len(k) == 1)
         disp_measure, exact_height = _probe_measuring()
     except Exception:  # broken tree: keep the model compilable, the correspondence reports it
@@ -128,8 +178,10 @@ def generate() -> None:
     except Exception:
         big, mw_samples = 0, []
     body = "namespace Ptk.Gen.C11\n\n"
-    body += "/-- scanned sub-ranges of the code space (half open) -/\n"
+    body += "/-- the sub-ranges the round-1 table was scanned on (half open; kept for the agreement layer) -/\n"
     body += "def scanned : List (Nat × Nat) := [" + ", ".join(f"({a}, {b})" for a, b in SCAN) + "]\n\n"
+    body += "/-- the width tables below cover this range of code points completely (half open) -/\n"
+    body += "def scannedAll : List (Nat × Nat) := [" + ", ".join(f"({a}, {b})" for a, b in ALL) + "]\n\n"
     body += "/-- inclusive ranges with `get_cwidth(c) = 0` -/\n"
     body += "def zeroWidthRanges : List (Nat × Nat) := " + G.lranges(zero) + "\n\n"
     body += "/-- inclusive ranges with `get_cwidth(c) = 2` -/\n"
